@@ -604,17 +604,8 @@ func TestC14_fixtures(t *testing.T) {
 		completed = true
 		return
 	}
-	for _, k := range col.KnownList() {
-		var cs c14FixtureCase
-		if k.Witness == "" || ev.ReplayCase(filepath.Join(verifRoot(), k.Witness), &cs) != nil || cs.Extractor == "" {
-			continue
-		}
-		if _, err := ev.Safe(propC14Fixture(col, false))(cs); err != nil {
-			fmt.Printf("KNOWN-FINDING: property=C14 %s\n", k.What)
-		} else {
-			col.Note("known finding %s: witness no longer fails", k.Class)
-		}
-	}
+	// witnesses of both legs are replayed here, once per run
+	ev.ReplayKnown(t, col, propC14Any(col))
 	root := repoRoot()
 	emptied := loadEmptied()
 	scratch := scratchDir(t)
@@ -841,6 +832,25 @@ func propC14Fixture(col *ev.Collector, honourKnown bool) func(cs c14FixtureCase)
 	}
 }
 
+// c14AnyCase decodes a witness of either leg (the JSON field names of the two case types
+// are disjoint).
+type c14AnyCase struct {
+	c14FixtureCase
+	c14RenderedCase
+}
+
+func propC14Any(col *ev.Collector) func(c c14AnyCase) (ev.Outcome, error) {
+	return func(c c14AnyCase) (ev.Outcome, error) {
+		if c.c14FixtureCase.Extractor != "" {
+			return propC14Fixture(col, false)(c.c14FixtureCase)
+		}
+		if c.c14RenderedCase.Format != "" {
+			return propC14Rendered(col, false)(c.c14RenderedCase)
+		}
+		return ev.Outcome{}, nil
+	}
+}
+
 // ---- leg 2: packages harvested from generated inputs ------------------------------------------
 
 type c14RenderedCase struct {
@@ -932,6 +942,5 @@ func propC14Rendered(col *ev.Collector, honourKnown bool) func(c c14RenderedCase
 
 func TestC14_rendered(t *testing.T) {
 	col := ev.Get("C14")
-	checkRapid(t, col, ev.Scale(ev.IntEnv("VERIF_C14_QUICK", 8000), 50000), genC14Rendered(col), propC14Rendered(col, true), propC14Rendered(col, false),
-		func(c c14RenderedCase) bool { return c.Format != "" })
+	checkRapid(t, col, ev.Scale(ev.IntEnv("VERIF_C14_QUICK", 8000), 50000), genC14Rendered(col), propC14Rendered(col, true), propC14Rendered(col, false))
 }
